@@ -139,7 +139,17 @@ std::string framesToFrameRange(const Frames &frames,
 
 bool isFrameRange(const std::string &frange) {
     internal::RangeMatches matches;
-    return frameRangeMatches(matches, frange);
+    if (!frameRangeMatches(matches, frange)) {
+        return false;
+    }
+    // A step cannot be 0, the same as when creating a FrameSet
+    internal::RangeMatches::const_iterator it;
+    for (it = matches.begin(); it != matches.end(); ++it) {
+        if (it->matches == 4 && it->step == 0) {
+            return false;
+        }
+    }
+    return true;
 }
 
 // forward declare private impl using seqTemplate param
